@@ -166,7 +166,7 @@ class Corpus:
             if not fields:
                 lines.append(f"    {vn}" + (f" = {discr}" if discr is not None else "") + ",")
             elif all(f.name.isdigit() for f in fields):
-                lines.append(f"    {vn}(" + ", ".join(f.ty for f in fields) + ")" + (f" = {discr}" if discr is not None else "") + ",")
+                lines.append(f"    {vn}(" + ", ".join(" ".join(f.attrs()) + " " + f.ty for f in fields) + ")" + (f" = {discr}" if discr is not None else "") + ",")
             else:
                 lines.append(f"    {vn} {{")
                 for f in fields:
@@ -234,6 +234,10 @@ def fam_prim(c):
         ("P_arrayvec_C", "C", [F("a", "ArrayVec<u32, 4>")]),
         ("P_ignore_C", "C", [F("a", "u32"), F("skip", "u32", ignore=True), F("b", "u32")]),
         ("P_mixed_regions_C", "C", [F("a", "u32"), F("b", "u32"), F("s", "String"), F("c", "u16"), F("d", "u16")]),
+        ("P_run3_reordered", None, [F("a", "[u32; 2]"), F("b", "[u32; 2]"), F("c", "u32"), F("y", "u64")]),
+        ("P_run4_reordered", None, [F("a", "u16"), F("b", "[u16; 3]"), F("c", "u16"), F("d", "[u16; 2]"), F("y", "u32"), F("s", "String")]),
+        ("P_run5_C", "C", [F("a", "u8"), F("b", "u8"), F("c", "u8"), F("d", "u8"), F("e", "u8"), F("s", "String")]),
+        ("P_run3_gap_C", "C", [F("a", "u8"), F("b", "u8"), F("w", "u32"), F("c", "u8"), F("d", "u8"), F("e", "u8"), F("s", "String")]),
     ]
     for name, repr_, fields in cases:
         L += c.struct(mod, name, fields, repr=repr_, family="PRIM")
@@ -270,6 +274,10 @@ def fam_prim(c):
                                        ("C", [Field("x", "u8"), Field("y", "Vec<u8>")], None, 0)], family="ENUM")
     L += c.enum(mod, "E_u16_mixed", [("A", [], None, 0), ("B", F0("u64"), None, 0)], repr="u16", family="ENUM")
     L += c.enum(mod, "E_many", [(f"V{i}", [], None, 0) for i in range(300)], family="ENUM")
+    L += c.enum(mod, "E_u8_versioned_packed", [("Move", [Field("0", "u8"), Field("1", "u8", frm=1)], None, 0),
+                                               ("Turn", F0("u8", "u8"), None, 0)], repr="u8", family="ENUM", cur_version=1)
+    L += c.enum(mod, "E_u8_removed_packed", [("Move", [Field("0", "u8"), Field("1", "Removed<u8>", to=0, removed="Removed")], None, 0),
+                                             ("Turn", F0("u8"), None, 0)], repr="u8", family="ENUM", cur_version=1)
     L += c.enum(mod, "E_versioned_fields", [("A", [Field("x", "u32"), Field("y", "u32", frm=1)], None, 0),
                                             ("B", [], None, 0), ("C", F0("u16"), None, 1)], family="ENUM", cur_version=1)
     c.module(mod, L)
